@@ -41,6 +41,7 @@ type Stats struct {
 	ImageCallHooks int
 	GoStatements   int
 	SyncImports    int
+	FieldHooks     int // accesses to plain fields of structs that carry a sync object
 	AtomicImports  int
 	Uninstrumented []string // constructs the rewriter saw but could not hook
 	Channels       []string // channel operations in instrumented packages (not modelled)
@@ -177,6 +178,24 @@ func (rw *rewriter) file(f *ast.File) {
 					rw.usedVrt = true
 					continue
 				}
+				if rw.guardedField(l) {
+					rw.handled[l] = true
+					n.Lhs[i] = hook(fn, l)
+					rw.stats.FieldHooks++
+					rw.usedVrt = true
+					continue
+				}
+				if ix, ok := l.(*ast.IndexExpr); ok && rw.guardedField(ix.X) {
+					if tv, ok := info.Types[ix.X]; ok {
+						if _, isMap := tv.Type.Underlying().(*types.Map); isMap {
+							rw.handled[ix.X] = true
+							ix.X = &ast.ParenExpr{X: hook("W", ix.X)}
+							rw.stats.FieldHooks++
+							rw.usedVrt = true
+							continue
+						}
+					}
+				}
 				if ix, ok := l.(*ast.IndexExpr); ok {
 					if tv, ok := info.Types[ix.X]; ok {
 						if _, isMap := tv.Type.Underlying().(*types.Map); isMap && rw.hookedIdent(ix.X) != nil {
@@ -198,7 +217,7 @@ func (rw *rewriter) file(f *ast.File) {
 				}
 			}
 		case *ast.IncDecStmt:
-			if rw.hookedIdent(n.X) != nil || rw.isPixExpr(n.X) {
+			if rw.hookedIdent(n.X) != nil || rw.isPixExpr(n.X) || rw.guardedField(n.X) {
 				rw.handled[n.X] = true
 				n.X = hook("RW", n.X)
 				rw.stats.WriteHooks++
@@ -221,6 +240,9 @@ func (rw *rewriter) file(f *ast.File) {
 				if rw.isPixExpr(n.X) {
 					rw.handled[n.X] = true
 				}
+				if rw.guardedField(n.X) {
+					rw.handled[n.X] = true // address taken
+				}
 			}
 		case *ast.CallExpr:
 			if id, ok := n.Fun.(*ast.Ident); ok && id.Name == "delete" && len(n.Args) == 2 && rw.hookedIdent(n.Args[0]) != nil {
@@ -232,6 +254,7 @@ func (rw *rewriter) file(f *ast.File) {
 		case *ast.SelectorExpr:
 			// never rewrite the Sel identifier
 			rw.handled[n.Sel] = true
+
 		case *ast.KeyValueExpr:
 			if id, ok := n.Key.(*ast.Ident); ok {
 				if v, ok := info.Uses[id].(*types.Var); ok && v.IsField() {
@@ -281,6 +304,15 @@ func (rw *rewriter) file(f *ast.File) {
 			args := append([]ast.Expr{sel.X}, n.Args...)
 			c.Replace(&ast.CallExpr{Fun: &ast.SelectorExpr{X: ast.NewIdent("vrt"), Sel: ast.NewIdent(sel.Sel.Name)}, Args: args})
 			rw.stats.ImageCallHooks++
+			rw.usedVrt = true
+		case *ast.SelectorExpr:
+			if rw.handled[n] || !rw.guardedField(n) {
+				return true
+			}
+			// a call through a func-typed field, or a field used as a method
+			// receiver, still reads the field
+			c.Replace(&ast.ParenExpr{X: hook("R", n)})
+			rw.stats.FieldHooks++
 			rw.usedVrt = true
 		case *ast.IndexExpr:
 			if rw.handled[n] || !rw.isPixExpr(n) {
@@ -414,7 +446,7 @@ func Generate(repoDir, outDir, shimDir string) (overlayPath string, st Stats, er
 							if v.Parent() == v.Pkg().Scope() {
 								// sync and sync/atomic objects (and arrays of them) are accessed
 								// through their methods, which are the hooks
-								if !inRanges(x.Pos(), inits) && !isSyncType(v.Type()) {
+								if !inRanges(x.Pos(), inits) && !containsSync(v.Type()) {
 									globals[v] = true
 								}
 							} else {
@@ -449,7 +481,7 @@ func Generate(repoDir, outDir, shimDir string) (overlayPath string, st Stats, er
 					}
 				case *ast.Ident:
 					// any use of a package-level sync / sync/atomic object outside init: reset it between executions
-					if v, ok := info.Uses[x].(*types.Var); ok && !v.IsField() && v.Pkg() != nil && v.Parent() == v.Pkg().Scope() && isSyncType(v.Type()) && !inRanges(x.Pos(), inits) {
+					if v, ok := info.Uses[x].(*types.Var); ok && !v.IsField() && v.Pkg() != nil && v.Parent() == v.Pkg().Scope() && containsSync(v.Type()) && !inRanges(x.Pos(), inits) {
 						syncVarsUsed[v] = true
 					}
 				}
@@ -728,6 +760,65 @@ func Generate(repoDir, outDir, shimDir string) (overlayPath string, st Stats, er
 		return "", st, err
 	}
 	return overlayPath, st, nil
+}
+
+// containsSync reports whether t is, or is a struct/array containing, a sync or
+// sync/atomic object: the usual shape of shared state ("a lock and what it
+// guards").
+func containsSync(t types.Type) bool { return containsSyncDepth(t, 0) }
+
+func containsSyncDepth(t types.Type, depth int) bool {
+	if depth > 6 {
+		return false
+	}
+	if isSyncType(t) {
+		return true
+	}
+	switch u := t.Underlying().(type) {
+	case *types.Struct:
+		for i := 0; i < u.NumFields(); i++ {
+			if containsSyncDepth(u.Field(i).Type(), depth+1) {
+				return true
+			}
+		}
+	case *types.Array:
+		return containsSyncDepth(u.Elem(), depth+1)
+	}
+	return false
+}
+
+// guardedField reports whether sel reads or writes a plain field of a struct
+// that carries a sync object (and is declared in an instrumented package): such
+// fields are hooked like package-level variables.
+func (rw *rewriter) guardedField(e ast.Expr) bool {
+	sel, ok := e.(*ast.SelectorExpr)
+	if !ok {
+		return false
+	}
+	s := rw.pkg.TypesInfo.Selections[sel]
+	if s == nil || s.Kind() != types.FieldVal {
+		return false
+	}
+	recv := s.Recv()
+	if p, ok := recv.(*types.Pointer); ok {
+		recv = p.Elem()
+	}
+	n, ok := recv.(*types.Named)
+	if !ok || n.Obj().Pkg() == nil || !instrumentedPkg(n.Obj().Pkg().Path()) {
+		return false
+	}
+	if _, isStruct := n.Underlying().(*types.Struct); !isStruct || !containsSync(n) {
+		return false
+	}
+	if containsSync(s.Obj().Type()) {
+		return false // the sync object itself
+	}
+	tv, ok := rw.pkg.TypesInfo.Types[sel]
+	return ok && tv.Addressable()
+}
+
+func instrumentedPkg(path string) bool {
+	return strings.HasPrefix(path, "github.com/mandykoh/prism") || path == "github.com/mandykoh/go-parallel"
 }
 
 func isSyncType(t types.Type) bool {
